@@ -1,6 +1,6 @@
 (* C07 string block: offsets -> lengths packing (V2) under any compressor mode. *)
 From Coq Require Import ZArith List Bool Lia ZifyBool ZifyNat.
-From OG Require Import C07.Model C07.ProofsBase.
+From OG Require Import C07.Gen_Consts C07.Model C07.ProofsBase.
 Import ListNotations.
 Open Scope Z_scope.
 
@@ -85,6 +85,73 @@ Proof.
     pose proof (len_concat_ge ss s Iss). lia.
 Qed.
 
+(* ---- version 1 (decode only) ---- *)
+Lemma diffs_starts : forall init lst o, diffs_from o (starts (o + len (hd lst init)) (tl (init ++ [lst]))) = map (@len Z) init.
+Proof.
+  induction init as [|s init IH]; intros lst o; [reflexivity|].
+  cbn [app tl hd map]. destruct init as [|s2 init'].
+  - cbn. f_equal. lia.
+  - cbn [app starts diffs_from]. f_equal; [lia|].
+    specialize (IH lst (o + len s)). cbn [app tl hd] in IH. exact IH.
+Qed.
+
+Lemma starts_range : forall ss o v, 0 <= o -> In v (starts o ss) -> 0 <= v <= o + len (concat ss).
+Proof.
+  induction ss as [|s r IH]; intros o v Ho H; [destruct H|].
+  cbn [starts concat] in *. rewrite len_app. pose proof (len_nonneg s). pose proof (len_nonneg (concat r)).
+  destruct H as [<-|H]; [lia|]. specialize (IH (o + len s) v). lia.
+Qed.
+
+Lemma starts_length : forall ss o, length (starts o ss) = length ss.
+Proof. induction ss; intros; [reflexivity|]. cbn. rewrite IHss. reflexivity. Qed.
+
+Theorem unpack_pack_strings_v1 : forall ss, 8 + len (concat ss) + 4 * len ss < M32 ->
+  unpack_strings_v1 (pack_strings_v1 ss) = Some ss.
+Proof.
+  intros ss Hl. pose proof (len_nonneg (concat ss)) as Hd. pose proof (len_nonneg ss) as Hs.
+  unfold pack_strings_v1, unpack_strings_v1.
+  rewrite get_be_app by (rewrite pow256_4; lia).
+  rewrite !len_app, be_len4.
+  set (OB := flat_map (fun o => be 4 o) (starts 0 ss)).
+  assert (LOB : len OB = 4 * len ss).
+  { unfold OB. rewrite (flat_be4_length (fun o => o)). unfold len. rewrite starts_length. reflexivity. }
+  destruct (Z.ltb_spec (len (concat ss) + (4 + len OB)) (len (concat ss) + 4)); [lia|].
+  rewrite firstn_len_app, skipn_len_app by reflexivity.
+  rewrite get_be_app by (rewrite pow256_4; lia).
+  destruct (Z.ltb_spec (len OB) (4 * len ss)); [lia|].
+  replace (4 * len ss / 4) with (len ss) by (rewrite Z.mul_comm, Z.div_mul; lia).
+  replace (firstn (Z.to_nat (4 * len ss)) OB) with OB by (rewrite <- LOB; unfold len; rewrite Nat2Z.id; symmetry; apply firstn_all).
+  unfold OB. rewrite (be4_all_flat (fun o => o)).
+  - rewrite map_id. destruct ss as [|s r]; [reflexivity|].
+    destruct (@exists_last _ (s :: r)) as (init & lst & ES); [discriminate|].
+    cbn [starts]. cbn [Z.to_nat skipn].
+    assert (D : diffs_from 0 (starts (0 + len s) r) = map (@len Z) init).
+    { pose proof (diffs_starts init lst 0) as D. rewrite <- ES in D. cbn [tl] in D.
+      replace (hd lst init) with s in D; [exact D|]. destruct init; cbn in ES; inversion ES; reflexivity. }
+    rewrite D. rewrite ES, concat_app. cbn [concat]. rewrite app_nil_r. f_equal. apply split_by_concat.
+  - intros v I. pose proof (starts_range ss 0 v ltac:(lia) I). lia.
+Qed.
+
+Lemma pack_strings_v1_len : forall ss : list (list Z), len (pack_strings_v1 ss) = 8 + len (concat ss) + 4 * len ss.
+Proof.
+  intros. unfold pack_strings_v1. rewrite !len_app, !be_len4, (flat_be4_length (fun o => o)).
+  replace (len (starts 0 ss)) with (len ss) by (unfold len; rewrite starts_length; reflexivity). lia.
+Qed.
+
+(* the version dispatch takes a version-1 packing (its first word is a data length below the version words) to the
+   version-1 reader *)
+Theorem unpack_strings_takes_v1 : forall ss, 8 + len (concat ss) + 4 * len ss < M32 - 3 ->
+  unpack_strings (pack_strings_v1 ss) = Some ss.
+Proof.
+  intros ss H. pose proof (len_nonneg (concat ss)) as Hd. pose proof (len_nonneg ss) as Hs.
+  unfold unpack_strings. unfold pack_strings_v1 at 1.
+  rewrite get_be_app by (rewrite pow256_4; lia).
+  assert (V2 : str_version_v2 = M32 - 2) by reflexivity. assert (VE : g_str_end = M32 - 3) by reflexivity.
+  destruct (Z.eqb_spec (len (concat ss)) str_version_v2); [lia|].
+  destruct (Z.ltb_spec (len (concat ss)) g_str_end); [|lia].
+  apply unpack_pack_strings_v1. lia.
+Qed.
+
 Section StringProof.
   Variable cc : smode -> list Z -> list Z.
   Variable cd : smode -> list Z -> option (list Z).
@@ -123,4 +190,24 @@ Section StringProof.
       reflexivity. }
     destruct m; rewrite G by lia; unfold smode_tag; tagsimp; try (rewrite comp_roundtrip by assumption; rewrite Z.eqb_refl); exact UP.
   Qed.
+
 End StringProof.
+
+  (* blocks written with the deprecated version-1 packing still decode to exactly their strings (any count, incl. none) *)
+Theorem string_block_v1_roundtrip : forall (cd : smode -> list Z -> option (list Z)) ss, 8 + len (concat ss) + 4 * len ss < M32 - 3 ->
+    string_dec cd (string_block_v1 ss) = Some ss.
+  Proof.
+    intros cd ss H. pose proof (len_nonneg (concat ss)) as Hd. pose proof (len_nonneg ss) as Hs.
+    assert (UP : unpack_strings (pack_strings_v1 ss) = Some ss) by (apply unpack_strings_takes_v1; exact H).
+    unfold string_block_v1. set (src := pack_strings_v1 ss) in *.
+    assert (LS : len src = 8 + len (concat ss) + 4 * len ss) by apply pack_strings_v1_len.
+    cbn [app]. unfold string_dec.
+    destruct (Nat.ltb_spec (length (16 * g_str_raw :: be 4 (len src) ++ be 4 (len src) ++ src)) 9) as [L|L].
+    { cbn [length] in L. rewrite !app_length, !be_length in L. lia. }
+    rewrite get_be_app by (rewrite pow256_4; lia).
+    rewrite <- (app_nil_r src) at 2.
+    rewrite get_be_app by (rewrite pow256_4; lia).
+    rewrite app_nil_r, Z.ltb_irrefl.
+    replace (firstn (Z.to_nat (len src)) src) with src by (unfold len; rewrite Nat2Z.id, firstn_all; reflexivity).
+    change (16 * g_str_raw / 16 =? g_str_raw) with true. cbn [orb negb]. exact UP.
+  Qed.
